@@ -312,6 +312,27 @@ def run(F, R, tier):
         R.ob("C09-D", "%s descends into or records its node" % b["path"].split("::")[-1], bool(acts),
              "the %s override of DepsFiller does nothing: references nested below such a node are never collected" % b["path"].split("::")[-1], b["file"])
     R.floor("C09-D DepsFiller visitor overrides", n_ov, 25)
+    # a type annotation / type parameter list / return type that a visitor unwraps is visited
+    TYPEY_FIELDS = ("type_ann", "return_type", "type_params", "type_args", "super_type_params", "constraint", "default")
+    n_ta = 0
+    for b in F.bodies:
+        if b.get("derived") or not (b["path"].startswith("<" + DF + " as ") or b.get("self_adt") == DF):
+            continue
+        for n in b["_nodes"]:
+            if n.get("k") != "If" or peel(n["cond"]).get("k") != "Let":
+                continue
+            c = peel(n["cond"])
+            src = peel_value(c["init"])
+            if not (src.get("k") == "Field" and src["field"] in TYPEY_FIELDS):
+                continue
+            binds = {b_["lid"] for b_ in pat_bindings(c["pat"])}
+            if not binds:
+                continue
+            n_ta += 1
+            used = [x for x in walk(n["then"]) if x.get("k") in ("MethodCall", "Call") and ((x.get("name") or "").startswith("visit") or (x.get("fn") or "").split("::")[-1].startswith("visit")) and any(y.get("lid") in binds for y in walk(x))]
+            R.ob("C09-D", "the `%s` unwrapped in %s is visited" % (src["field"], b["path"].split("::")[-1].rstrip(">")), bool(used),
+                 "`if let Some(..) = &..%s` in %s does nothing with it: names referenced from that type position are never traced and end up undeclared in the emitted file" % (src["field"], b["path"].split("::")[-1].rstrip(">")), where(n))
+    R.floor("C09-D unwrapped type positions", n_ta, 15)
     # every declaration of a symbol is traced: loops over a symbol's declarations never stop early
     n_dl = 0
     for lp in [n for n in am["_nodes"] if n["k"] == "For"]:
